@@ -18,7 +18,7 @@ RULE = ("Inner applications = generated response recipes of every class (several
         "ASGI body events, repeated headers, odd reason phrases), plus apps raising before / after start or mid-body; wrapped in identity `middleware` stacks of depth "
         "1-3, identity `decorator` stacks of depth 1-3 and a middleware that edits exactly one header; GET/HEAD, Range for files; both interfaces. "
         "Non-trivial = inner app with repeated headers, >=2 body chunks, an empty body, or an error; distinct = (recipe, wrapper, depth, request, interface).")
-RULE += ' Also: 2-4 requests with bodies of different lengths in flight together through one wrapped app; bodies above 1 MiB, latin-1 Set-Cookie lines, headers handed over as a one-shot iterator, a middleware appending to an existing header under a mixed-case name, iterators without close() that raise after the first chunk, a repeated header whose first value is empty, one reused bytearray as ASGI body (the emulators snapshot it when written). Inner iterables that are list / tuple subclasses with close().'
+RULE += ' Also: 2-4 requests with bodies of different lengths in flight together through one wrapped app; bodies above 1 MiB, latin-1 Set-Cookie lines, headers handed over as a one-shot iterator, a middleware appending to an existing header under a mixed-case name, iterators without close() that raise after the first chunk, a repeated header whose first value is empty, one reused bytearray as ASGI body (the emulators snapshot it when written). Inner iterables that are list / tuple subclasses with close(). WSGI chunks yielded before an inner failure reach the client behind the wrappers as they do without; one header mapping (Headers / MutableHeaders / dict) handed to every response behind an appending wrapper: request 3 like request 1, the bare application unchanged.'
 ASSUMPTIONS = [
     "headers are compared as multisets with case-folded names; reason phrases and body chunking are not compared",
     "Set-Cookie expiry dates are masked (two runs may straddle a second)",
@@ -163,6 +163,9 @@ def compare(ctx, iface, recipe, wrapper, depth, req_desc, bare, wrapped, count, 
             ctx.violation(f"inner-error|different-exception|{iface}|{wrapper}", case, f"bare {bare['exc']!r}; wrapped {wrapped['exc']!r}")
         elif not bare["body"].replace(b": ping\n\n", b"").startswith(wrapped["body"].replace(b": ping\n\n", b"")):  # pings: a matter of timing
             ctx.violation(f"inner-error|wrapped-output-not-a-prefix|{iface}|{wrapper}", case, "")
+        elif iface == "wsgi" and bare["body"].replace(b": ping\n\n", b"") != wrapped["body"].replace(b": ping\n\n", b""):
+            # WSGI streams: what the inner application had yielded before it failed has reached the client of the bare application - and of the wrapped one
+            ctx.violation(f"inner-error|chunks-yielded-before-the-failure-are-lost|{iface}|{wrapper}", case, f"bare delivered {len(bare['body'])} B before the error; wrapped {len(wrapped['body'])} B")
         return
     if wrapped["exc"] is not None:
         e = wrapped["exc"]
@@ -361,6 +364,69 @@ def overlapped_requests(ctx, rng):
     return case
 
 
+def shared_headers_object(ctx, rng):
+    """the application keeps ONE header mapping (its default headers) and hands it to every response it builds; behind a decorator /
+    middleware that appends to one of those headers, the second request is answered like the first, and the bare application still
+    answers as it did before"""
+    from baize import asgi, wsgi
+    from baize.datastructures import Headers, MutableHeaders
+    kind = rng.choice(["Headers", "MutableHeaders", "dict"])
+    wrapper = rng.choice(["middleware", "decorator"])
+    case = {"one_header_mapping_given_to_every_response": kind, "appended_to_behind": wrapper}
+    for iface, ns in (("wsgi", wsgi), ("asgi", asgi)):
+        base = {"vary": "Cookie", "x-frame-options": "DENY"}
+        shared = Headers(base) if kind == "Headers" else MutableHeaders(base) if kind == "MutableHeaders" else dict(base)
+        if iface == "wsgi":
+            @ns.request_response
+            def inner(request):
+                return ns.PlainTextResponse("x", headers=shared)
+        else:
+            @ns.request_response
+            async def inner(request):
+                return ns.PlainTextResponse("x", headers=shared)
+        if wrapper == "middleware":
+            app = append_middleware(ns, iface)(inner)
+        else:
+            if iface == "wsgi":
+                @ns.decorator
+                def d(request, next_call):
+                    response = next_call(request)
+                    response.headers.append("Vary", "Accept")
+                    return response
+            else:
+                @ns.decorator
+                async def d(request, next_call):
+                    response = await next_call(request)
+                    response.headers.append("Vary", "Accept")
+                    return response
+            # a decorator wraps the view itself
+            if iface == "wsgi":
+                app = ns.request_response(d(lambda request: ns.PlainTextResponse("x", headers=shared)))
+            else:
+                async def view(request):
+                    return ns.PlainTextResponse("x", headers=shared)
+                app = ns.request_response(d(view))
+
+        def ask(a):
+            if iface == "wsgi":
+                r = drivers.run_wsgi(a, drivers.to_environ(drivers.Req()))
+                return r.exc, sorted(drivers.norm_headers_wsgi(r.headers or [])), r.body
+            r = drivers.run_asgi(a, drivers.to_scope(drivers.Req()))
+            return r.exc, sorted(drivers.norm_headers_asgi(r.headers or [])), r.body
+        bare0 = ask(inner)
+        w1, w2, w3 = ask(app), ask(app), ask(app)
+        bare1 = ask(inner)
+        ctx.mon("shared-header-mapping")
+        c = dict(case, iface=iface)
+        if bare0[0] is not None or w1[0] is not None:
+            ctx.violation(f"wrapped-raises|{type(bare0[0] or w1[0]).__name__}|{iface}|{wrapper}|shared-header-mapping", c, repr(bare0[0] or w1[0])[:200])
+        elif not (w1 == w2 == w3):
+            ctx.violation(f"headers-differ|{iface}|append|later-request-differs-from-the-first", c, f"first {w1[1]}; third {w3[1]}")
+        elif bare1 != bare0:
+            ctx.violation(f"headers-differ|{iface}|append|bare-application-changed-by-the-wrapped-requests", c, f"before {bare0[1]}; after {bare1[1]}")
+    return case
+
+
 def close_propagation(ctx, rng):
     """the server abandons a WSGI response after k chunks and calls close(): the inner application's iterable must be
     closed behind the middleware exactly as it is without it (PEP 3333: the only way the application learns about it)"""
@@ -487,6 +553,9 @@ def run(ctx):
     for i in range(ctx.scale(150, 6000)):
         case = close_propagation(ctx, rng)
         ctx.case(repr(case))
+    for i in range(ctx.scale(12, 600)):
+        case = shared_headers_object(ctx, rng)
+        ctx.case((repr(case), i))
     for i in range(ctx.scale(150, 6000)):
         case = overlapped_requests(ctx, rng)
         ctx.case(repr(case))
@@ -518,6 +587,12 @@ def run(ctx):
 
 
 def replay(ctx, case):
+    if "one_header_mapping_given_to_every_response" in case:
+        rng = ctx.rng("c20-replay")
+        for _ in range(40):
+            shared_headers_object(ctx, rng)
+        ctx.case(1)
+        return
     import os
     contracts.arm_list_headers()
     if case.get("no_receive_channel"):
